@@ -176,6 +176,10 @@ func runC04(c *Ctx) {
 	c.ruleTieIndex("R04.3", r)
 	c.ruleFifoSegments("R04.4", r)
 	c.ruleSingleConsumer("R04.5")
+	c.ruleBatchOrder("R04.6")
+	// one dispatcher at a time, also across a Restart: two dispatchers start jobs out of queue order
+	c.ruleOneDispatcher("R04.7")
+	c.ruleDispatcherJoined("R04.7")
 }
 
 func (c *Ctx) ruleComparatorTable(rule string, r *pqRoles) {
@@ -839,4 +843,89 @@ func (c *Ctx) switchReadToNext(rule string, f *Func, fNext string) {
 		c.Rep.check(good, rule, f.Short(), "read chunk advanced to something other than its Next", c.P.pos(as), "readChunk = readChunk.Next", "Dequeue must advance the read chunk to readChunk.Next only")
 		return true
 	})
+}
+
+// ruleBatchOrder: AddAll enqueues the items in the order of the caller's slice (FIFO among equal priorities, FIFO on the
+// plain queue, is defined by that order): the loop that enqueues ranges over the slice parameter itself, and that
+// parameter is used for nothing else than its length — it is not handed to a sort, reversed, copied or re-assigned.
+func (c *Ctx) ruleBatchOrder(rule string) {
+	c.Rep.rule(rule, "def-use", "every batch submit loop ranges over the caller's slice parameter itself, which is otherwise only measured (len)", 6)
+	for _, f := range c.submitFuncs() {
+		info := f.Info()
+		var loop *ast.RangeStmt
+		var other ast.Stmt
+		ast.Inspect(f.Body, func(n ast.Node) bool {
+			var body *ast.BlockStmt
+			switch x := n.(type) {
+			case *ast.RangeStmt:
+				body = x.Body
+			case *ast.ForStmt:
+				body = x.Body
+			default:
+				return true
+			}
+			has := false
+			ast.Inspect(body, func(m ast.Node) bool {
+				if call, ok := m.(*ast.CallExpr); ok {
+					if k := resolveCallee(info, call).Key; k == kEnqueueQ || k == kEnqueuePQ {
+						has = true
+					}
+				}
+				return true
+			})
+			if has {
+				if rs, ok := n.(*ast.RangeStmt); ok {
+					loop = rs
+				} else {
+					other = n.(ast.Stmt)
+				}
+			}
+			return true
+		})
+		if loop == nil && other == nil {
+			continue // not a batch function
+		}
+		if loop == nil {
+			c.Rep.fail(rule, f.Short(), "batch loop is not a range over the items", c.P.pos(other), f.Short()+" enqueues its batch in a loop that is not a plain range over the caller's slice: the enqueue order is not evidently the caller's order")
+			continue
+		}
+		id, isId := ast.Unparen(loop.X).(*ast.Ident)
+		var param *types.Var
+		if isId {
+			if v, ok := info.ObjectOf(id).(*types.Var); ok && v.Pos() < f.Body.Pos() && v.Pos() > f.Pos() {
+				param = v
+			}
+		}
+		if !c.Rep.check(param != nil, rule, f.Short(), "batch loop ranges over something other than the items parameter", c.P.pos(loop), "range over the slice parameter",
+			f.Short()+" enqueues in the order of "+types.ExprString(loop.X)+", not of the slice the caller passed: a sorted or otherwise re-ordered copy changes the FIFO order among items of equal priority") {
+			continue
+		}
+		// every other use of the parameter is len(param)
+		ast.Inspect(f.Body, func(n ast.Node) bool {
+			switch x := n.(type) {
+			case *ast.CallExpr:
+				if resolveCallee(info, x).Builtin == "len" && len(x.Args) == 1 {
+					if a, ok := ast.Unparen(x.Args[0]).(*ast.Ident); ok && info.ObjectOf(a) == param {
+						return false
+					}
+				}
+			case *ast.RangeStmt:
+				if x == loop {
+					// skip the range expression itself, keep looking at the body
+					ast.Inspect(x.Body, func(m ast.Node) bool {
+						if a, ok := m.(*ast.Ident); ok && info.ObjectOf(a) == param {
+							c.Rep.fail(rule, f.Short(), "items slice used inside the batch loop", c.P.pos(a), f.Short()+" touches the items slice inside the loop that ranges over it")
+						}
+						return true
+					})
+					return false
+				}
+			case *ast.Ident:
+				if info.ObjectOf(x) == param {
+					c.Rep.fail(rule, f.Short(), "items slice used other than by len and range", c.P.pos(x), f.Short()+" passes or modifies the caller's items slice (sort, reverse, copy, re-slice): the order in which the batch is enqueued is no longer the caller's order")
+				}
+			}
+			return true
+		})
+	}
 }
